@@ -116,6 +116,54 @@ type GR2 struct {
 	H *GM1
 }
 
+// ---- the same shapes with a CUSTOM CONVERTER in play: wherever the schema says Int, the Go side holds a GCInt (a struct
+// counting hundredths), bound with bindnode.TypedIntConverter.  The converted type occurs as a struct field, a list
+// element, a map value, a union member, and inside a struct that is a union member / a field of a struct in a list.
+type GCInt struct{ Hundredths int64 }
+
+type GCS1 struct {
+	A GCInt
+	B string
+}
+type GCL1 []GCInt
+type GCM1 struct {
+	Keys   []string
+	Values map[string]GCInt
+}
+type GCM2 struct {
+	Keys   []string
+	Values map[string]*GCS1
+}
+type GCU1 struct {
+	Int    *GCInt
+	String *string
+}
+type GCU2 struct {
+	Int    *GCInt
+	String *string
+	S1     *GCS1
+	L1     *GCL1
+}
+type GCR5 []*GCU1
+
+var gcIntOption = bindnode.TypedIntConverter(&GCInt{},
+	func(i int64) (interface{}, error) { return &GCInt{Hundredths: i * 100}, nil },
+	func(v interface{}) (int64, error) {
+		c, ok := v.(*GCInt)
+		if !ok {
+			return 0, fmt.Errorf("GCInt converter: got %T", v)
+		}
+		return c.Hundredths / 100, nil
+	})
+
+// BindLibConv: catalogue type name -> Go type of the converter library.
+var BindLibConv = map[string]func() interface{}{
+	"S1": func() interface{} { return new(GCS1) }, "L1": func() interface{} { return new(GCL1) },
+	"M1": func() interface{} { return new(GCM1) }, "M2": func() interface{} { return new(GCM2) },
+	"U1": func() interface{} { return new(GCU1) }, "U2": func() interface{} { return new(GCU2) },
+	"R5": func() interface{} { return new(GCR5) },
+}
+
 // BindLib maps a catalogue type name to a pointer to the zero value of its Go type.
 var BindLib = map[string]func() interface{}{
 	"S1": func() interface{} { return new(GS1) }, "S2": func() interface{} { return new(GS2) },
@@ -142,6 +190,10 @@ func setTyped(dst reflect.Value, T *TyAST, tv model.Value) error {
 		g, err := (model.Conc{}).Scalar(tv)
 		if err != nil {
 			return err
+		}
+		if dst.Type() == reflect.TypeOf(GCInt{}) {
+			dst.Field(0).SetInt(g.I * 100)
+			break
 		}
 		switch dst.Kind() {
 		case reflect.Int, reflect.Int8, reflect.Int16, reflect.Int32, reflect.Int64:
@@ -336,12 +388,28 @@ func sameData(a, b interface{}) bool {
 
 // ReplayBindValue checks Wrap / build+Unwrap / Marshal+Unmarshal for one inhabitant of a library type (C19).
 func ReplayBindValue(cs *SchemaCase) (*run.Finding, int, bool) {
+	f, n, skipped := replayBindValue(cs, BindLib, nil)
+	if f != nil || skipped {
+		return f, n, skipped
+	}
+	// the same value once more through the library whose Ints are held by a custom-converted Go type
+	f2, n2, skipped2 := replayBindValue(cs, BindLibConv, []bindnode.Option{gcIntOption})
+	if skipped2 {
+		return nil, n, false
+	}
+	if f2 != nil {
+		f2.Detail = "binding with a custom Int converter: " + f2.Detail
+	}
+	return f2, n + n2, false
+}
+
+func replayBindValue(cs *SchemaCase, lib map[string]func() interface{}, bopts []bindnode.Option) (*run.Finding, int, bool) {
 	checks := 0
 	ts, root, err := BuildTypeSystem(cs.Ty)
 	if err != nil {
 		return &run.Finding{Step: -1, Target: "harness", Rule: "build-type-system", Class: "error", Detail: err.Error()}, 0, false
 	}
-	mk, ok := BindLib[root.Name()]
+	mk, ok := lib[root.Name()]
 	if !ok || !cs.Ok {
 		return nil, 0, true
 	}
@@ -359,7 +427,7 @@ func ReplayBindValue(cs *SchemaCase) (*run.Finding, int, bool) {
 	opts := model.ObsOpts{Typed: true, PrimaryOnly: true}
 	// (1) Wrap exposes exactly the data held
 	var wrapped schema.TypedNode
-	if p := model.Safe(func() { wrapped = bindnode.Wrap(want, typ) }); p != nil {
+	if p := model.Safe(func() { wrapped = bindnode.Wrap(want, typ, bopts...) }); p != nil {
 		return fail("Wrap", "Wrap:ok", "panic", fmt.Sprint(p)), checks, false
 	}
 	if m := conc.CheckObs(wrapped, cs.Tv, opts); m != nil {
@@ -373,7 +441,7 @@ func ReplayBindValue(cs *SchemaCase) (*run.Finding, int, bool) {
 	var built datamodel.Node
 	var berr error
 	if p := model.Safe(func() {
-		nb := bindnode.Prototype(mk(), typ).NewBuilder()
+		nb := bindnode.Prototype(mk(), typ, bopts...).NewBuilder()
 		berr = conc.BuildInto(nb, cs.Input)
 		if berr == nil {
 			built = nb.Build()
@@ -397,7 +465,7 @@ func ReplayBindValue(cs *SchemaCase) (*run.Finding, int, bool) {
 		}
 		var data []byte
 		var merr error
-		if p := model.Safe(func() { data, merr = ipld.Marshal(enc, want, typ) }); p != nil {
+		if p := model.Safe(func() { data, merr = ipld.Marshal(enc, want, typ, bopts...) }); p != nil {
 			return fail("Marshal("+codec+")", "Marshal:ok", "panic", fmt.Sprint(p)), checks, false
 		}
 		if merr != nil {
@@ -405,7 +473,7 @@ func ReplayBindValue(cs *SchemaCase) (*run.Finding, int, bool) {
 		}
 		fresh := mk()
 		var uerr error
-		if p := model.Safe(func() { _, uerr = ipld.Unmarshal(data, dec, fresh, typ) }); p != nil {
+		if p := model.Safe(func() { _, uerr = ipld.Unmarshal(data, dec, fresh, typ, bopts...) }); p != nil {
 			return fail("Unmarshal("+codec+")", "Unmarshal:ok", "panic", fmt.Sprintf("%q: %v", data, p)), checks, false
 		}
 		if uerr != nil {
